@@ -157,8 +157,14 @@ func (rc *BrokerRowProtoConverter) validateMetric(m *protoMetricsV1.Metric) erro
 		if commonseries.ShouldSanitizeFieldName(fieldName) {
 			m.SimpleFields[idx].Name = string(commonseries.SanitizeFieldName(fieldName))
 		}
-		// field type unspecified
-		if m.SimpleFields[idx].Type == protoMetricsV1.SimpleFieldType_SIMPLE_UNSPECIFIED {
+		// field type unspecified or unknown(converter cannot map it to flat field type)
+		switch m.SimpleFields[idx].Type {
+		case protoMetricsV1.SimpleFieldType_DELTA_SUM,
+			protoMetricsV1.SimpleFieldType_LAST,
+			protoMetricsV1.SimpleFieldType_Max,
+			protoMetricsV1.SimpleFieldType_Min,
+			protoMetricsV1.SimpleFieldType_FIRST:
+		default:
 			return ErrBadMetricPBFormat
 		}
 		v := m.SimpleFields[idx].Value
